@@ -72,7 +72,10 @@ static std::string print_list(const EList &l) {
       out += v.substr(p, q - p) + "\n";
       p = q + 1;
     }
-    t += e.key + "=" + out + "\n";
+    bool multi = out.find('\n') != std::string::npos;
+    // comments travel with the entries: a result that shares them with a freed input is a use after free
+    t += "# before " + e.key + "\n";
+    t += e.key + "=" + out + (multi || out.empty() ? "" : " # after " + e.key) + "\n";
   }
   return t;
 }
@@ -181,6 +184,8 @@ static void check_pair(const EList &bl, Build bh, const EList &ol, Build oh) {
   econf_freeFile(over);  // M7: R must not depend on them
   VF_CHECK(e == ECONF_SUCCESS && R && R != (econf_file *)-1, "merge-failed", ctx << ": econf_mergeFiles rc=" << e);
   Observed ob = observe(R);
+  std::string rdump = full_dump(R, true);  // every field of every entry must be the result's own copy (ASan: use after free)
+  (void)rdump;
   char *pth = econf_getPath(R);
   std::string path = pth ? pth : "<NULL>";
   free(pth);
